@@ -46,6 +46,7 @@ def parseOp {α : Type} (c : Codec α) (ts : List String) : Option (Op α) :=
   | "appp" :: h :: vs => do some (.appp (← nat h) (← vs.mapM c.parse))
   | ["sortby", h, a] => do some (.sortby (← nat h) ((← nat a) != 0))
   | ["iter", h] => do some (.iter (← nat h))
+  | ["slicee", t, h, i] => do some (.slicee (← nat t) (← nat h) (← nat i))
   | ["appown", h, j, k] => do some (.appown (← nat h) (← nat j) (← nat k))
   | ["copyown", h, j, k] => do some (.copyown (← nat h) (← nat j) (← nat k))
   | ["remx", h, i, n] => do some (.remx (← nat h) (← nat i) (← nat n))
